@@ -10,6 +10,7 @@ import (
 	"errors"
 	"fmt"
 	"net"
+	"os"
 	"strings"
 	"sync"
 	"syscall"
@@ -86,7 +87,15 @@ func TestVerifC17Addr(t *testing.T) {
 		"NewUpstream + one exchange with the dial intercepted in the socket Control callback; for udp:// both legs (UDP, and the TCP fallback leg); oracle: every dialled (network family, host, port) equals the reference (RFC 3986 host/port split, default port table, dial_addr override with default port added, '@' = abstract unix socket on stream schemes)"
 	q := refdns.Query(1, refdns.N("example", "test"), 1, 1).Encode(false)
 	n := 0
+	prop := os.Getenv("VERIF_PROP")
+	if prop == "" {
+		prop = "C17"
+	}
+	only := report.Param("SCHEMES", "")
 	for _, sc := range c17Schemes {
+		if only != "" && !strings.Contains(","+only+",", ","+sc.name+",") {
+			continue
+		}
 		for _, h := range c17Hosts() {
 			for _, port := range []string{"", "5353"} {
 				for _, da := range c17DialAddrs() {
@@ -121,14 +130,14 @@ func TestVerifC17Addr(t *testing.T) {
 					}()
 					rep.Eval(desc)
 					if err != nil {
-						rep.Violate("C17:addr:rejected", fmt.Sprintf("NewUpstream failed for a supported address form: %v (%s)", err, desc), nil)
+						rep.Violate(prop+":addr:rejected", fmt.Sprintf("NewUpstream failed for a supported address form: %v (%s)", err, desc), nil)
 						continue
 					}
 					var _ *dnsmsg.Msg
 					ctx, cancel := context.WithTimeout(context.Background(), 3*time.Second)
 					m, _ := u.ExchangeContext(ctx, q)
 					if m != nil {
-						rep.Violate("C17:addr:not-intercepted", "an exchange succeeded although every dial is intercepted: "+desc, nil)
+						rep.Violate(prop+":addr:not-intercepted", "an exchange succeeded although every dial is intercepted: "+desc, nil)
 					}
 					if f, ok := u.(*udpWithFallback); ok {
 						f.t.ExchangeContext(ctx, q) // the TCP leg, as taken after a truncated reply
@@ -149,7 +158,7 @@ func TestVerifC17Addr(t *testing.T) {
 					seen := append([]string(nil), rec.seen...)
 					rec.mu.Unlock()
 					if len(seen) == 0 {
-						rep.Violate("C17:addr:no-dial", "no dial was attempted: "+desc, nil)
+						rep.Violate(prop+":addr:no-dial", "no dial was attempted: "+desc, nil)
 						continue
 					}
 					nets := map[string]bool{}
@@ -170,12 +179,12 @@ func TestVerifC17Addr(t *testing.T) {
 							nets[network[:3]] = true
 						}
 						if !ok {
-							rep.Violate(fmt.Sprintf("C17:addr:wrong-target:%s:host=%s:dial=%s", sc.name, h.text, da.text),
+							rep.Violate(fmt.Sprintf("%s:addr:wrong-target:%s:host=%s:dial=%s", prop, sc.name, h.text, da.text),
 								fmt.Sprintf("dialled %s, expected %s host in %v port %s (%s)", s, sc.net, wantIPs, wantPort, desc), nil)
 						}
 					}
 					if sc.net == "udp" && !da.unix && (!nets["udp"] || !nets["tcp"]) {
-						rep.Violate("C17:addr:udp-legs", fmt.Sprintf("udp upstream must dial the same server over UDP and (fallback) TCP; saw %v (%s)", seen, desc), nil)
+						rep.Violate(prop+":addr:udp-legs", fmt.Sprintf("udp upstream must dial the same server over UDP and (fallback) TCP; saw %v (%s)", seen, desc), nil)
 					}
 				}
 			}
